@@ -476,7 +476,9 @@ func typeLevel(c *vf.Ctx) {
 		var d andx.AndX
 		n, uerr := d.Unmarshal(append(append([]byte{}, want...), 0xEE))
 		sw := andx.AndX{AndXCommand: ax.AndXCommand, AndXReserved: ax.AndXReserved, AndXOffset: ax.AndXOffset<<8 | ax.AndXOffset>>8}
-		wit2 := func() string { return fmt.Sprintf("andx.AndX.Unmarshal(%x) = %+v (%d,%v), want %+v", want, d, n, uerr, ax) }
+		wit2 := func() string {
+			return fmt.Sprintf("andx.AndX.Unmarshal(%x) = %+v (%d,%v), want %+v", want, d, n, uerr, ax)
+		}
 		c.Check("C05/andx/Unmarshal/layout", uerr == nil && n == 4 && (d == ax || d == sw), wit2)
 		c.Check("C05/andx/Unmarshal/offset-byteorder", uerr == nil && d == ax, wit2)
 	}
@@ -514,7 +516,9 @@ func typeLevel(c *vf.Ctx) {
 		out, err := a.Marshal()
 		want := []byte{byte(v), byte(v >> 8)}
 		c.Case([]byte("fileattr"), want)
-		wit := func() string { return fmt.Sprintf("SMB_FILE_ATTRIBUTES{%#04x}.Marshal() = %x (%v), little-endian: %x", v, out, err, want) }
+		wit := func() string {
+			return fmt.Sprintf("SMB_FILE_ATTRIBUTES{%#04x}.Marshal() = %x (%v), little-endian: %x", v, out, err, want)
+		}
 		c.Check("C05/types/SMB_FILE_ATTRIBUTES/Marshal/width", err == nil && len(out) == 2, wit)
 		c.Check("C05/types/SMB_FILE_ATTRIBUTES/Marshal/byteorder", err == nil && bytes.Equal(out, want), wit)
 		var d types.SMB_FILE_ATTRIBUTES
